@@ -865,7 +865,7 @@ func (g *Gen) callKeys(x *ssa.Call) []string {
 			if i == 0 {
 				keys = append(keys, name)
 			}
-			keys = append(keys, fmt.Sprintf("%s#%d", name, i+1))
+			keys = append(keys, fmt.Sprintf("%s#%d", name, i+1), name+"#*")
 		}
 	}
 	return keys
